@@ -145,8 +145,10 @@ def lemma_forward(timeout_ms, only=None):
                                          "why": "deterministic_choice raises %s on a valid call" % p.outcome.exc_name})
                 continue
             if len(argsrec) != 1:
-                out["witnesses"].append({"kind": "forward", "config": name,
-                                         "why": "%d hash computations for one choice" % len(argsrec)})
+                out["witnesses"].append({"kind": "choice_scheme", "config": name,
+                                         "args": [enc(harness.model_value(m, uid)), enc(args[0])],
+                                         "kwargs": {k: enc(v) for k, v in kwargs.items()},
+                                         "why": "%d hash computations for one choice (%s)" % (len(argsrec), name)})
                 continue
             a = argsrec[0]
             if not ops.is_strlike(a):
@@ -158,10 +160,11 @@ def lemma_forward(timeout_ms, only=None):
                 out["status"] = "inconclusive"
                 out["note"] = "unknown on L3"
             elif r == "sat":
-                out["witnesses"].append({"kind": "forward", "config": name,
-                                         "input_id": harness.model_value(m, uid),
-                                         "hashed": harness.model_value(m, a) if isinstance(a, Sym) else a,
-                                         "why": "the hashed string is not the input_id"})
+                out["witnesses"].append({"kind": "choice_scheme", "config": name,
+                                         "args": [enc(harness.model_value(m, uid)), enc(args[0])],
+                                         "kwargs": {k: enc(v) for k, v in kwargs.items()},
+                                         "hashed": repr(harness.model_value(m, a) if isinstance(a, Sym) else a),
+                                         "why": "the hashed string is not the input_id (%s)" % name})
     out["tally"] = tally
     return out
 
